@@ -283,4 +283,4 @@ impl AuthenticationBuiltin {
 
 #[cfg(rustdds_verif)]
 #[path = "/verif/harness/incrate/access/authentication_builtin.rs"]
-mod verif_access;
+pub(crate) mod verif_access;
